@@ -1,8 +1,244 @@
-(* temporary: replaced once Proofs exist *)
-From Coq Require Import ZArith List Bool.
-From BV Require Import Model.C19Chunks Model.AvdtpAsm Model.AvctpAsm Model.AvdtpStream Model.Sdp.
+(* Property C19: SDP answers and AVDTP/AVCTP messages are reassembled exactly across PDUs; an SDP
+   pattern matches a record only if it contains every UUID; AVDTP stream states agree on both
+   ends.  This file contains only statements, each closed by [exact]. *)
+From Coq Require Import ZArith List Bool Sorted.
+From BV Require Import Model.C19Chunks Model.Sdp Model.AvdtpAsm Model.AvctpAsm Model.AvdtpStream.
+From BV Require Import Proofs.C19Chunks Proofs.Sdp Proofs.AvdtpAsm Proofs.AvctpAsm Proofs.AvdtpStream.
 Import ListNotations.
 Open Scope Z_scope.
-Theorem C19_tmp : agree p_init = true.
-Proof. reflexivity. Qed.
-Print Assumptions C19_tmp.
+
+(* ============================================================ SDP *)
+
+(* A record is returned by a search exactly when it is in the table and contains EVERY UUID of
+   the pattern (any table, any pattern, nested sequences included). *)
+Theorem C19_sdp_match_iff_all_uuids : forall recs pat h svc,
+  In (h, svc) (match_services recs pat) <->
+  In (h, svc) recs /\ forall u, In u pat -> service_has_uuid svc u = true.
+Proof. exact match_iff_all_uuids. Qed.
+Print Assumptions C19_sdp_match_iff_all_uuids.
+
+(* The attributes returned for a record are exactly those in one of the requested ids / ranges,
+   sorted by attribute id. *)
+Theorem C19_sdp_attributes_exact : forall svc ids,
+  (forall a, In a (get_service_attributes svc ids) <->
+             In a svc /\ exists i, In i ids /\ id_lo i <= at_id a <= id_hi i) /\
+  StronglySorted id_le (get_service_attributes svc ids).
+Proof. exact get_service_attributes_spec. Qed.
+Print Assumptions C19_sdp_attributes_exact.
+
+(* One response carries at most the budget; a non-final piece carries exactly the budget (>= 1
+   byte when the budget is >= 1) and leaves a strictly shorter remainder: the loop terminates. *)
+Theorem C19_sdp_chunk_progress : forall mx b,
+  0 <= mx -> mx < zlen b ->
+  next_payload mx b = (firstn (Z.to_nat mx) b, true, RBytes (skipn (Z.to_nat mx) b)) /\
+  zlen (firstn (Z.to_nat mx) b) = mx /\ zlen (skipn (Z.to_nat mx) b) = zlen b - mx.
+Proof. exact next_payload_more. Qed.
+Print Assumptions C19_sdp_chunk_progress.
+
+Theorem C19_sdp_chunk_fits : forall mx b, 0 <= mx -> zlen (fst (fst (next_payload mx b))) <= mx.
+Proof. exact next_payload_fits. Qed.
+Print Assumptions C19_sdp_chunk_fits.
+
+(* concat(chunks) = response, for every response size, every MTU, every budget >= 1 and every
+   continuation limit w with w * budget >= size; whatever the server held before. *)
+Theorem C19_sdp_chunks_concat_response : forall w recs mtu cur pat mb ids,
+  1 <= Z.min mb (mtu - 9) -> (1 <= w)%nat ->
+  zlen (search_attr_bytes recs pat ids) <= Z.of_nat w * Z.min mb (mtu - 9) ->
+  client_bytes w recs mtu (QSearchAttr pat mb ids CFresh) cur CFresh [] =
+  (RNone, CDoneBytes (search_attr_bytes recs pat ids)).
+Proof. exact chunks_concat_response. Qed.
+Print Assumptions C19_sdp_chunks_concat_response.
+
+(* The guard is needed: with maximum_attribute_byte_count = 0 the transaction never ends,
+   whatever the continuation limit (the client is left with an empty partial answer). *)
+Theorem C19_sdp_zero_byte_count_never_terminates : forall w recs mtu cur pat ids,
+  9 <= mtu ->
+  client_bytes (S w) recs mtu (QSearchAttr pat 0 ids CFresh) cur CFresh [] =
+  (RBytes (search_attr_bytes recs pat ids), CPartialBytes []).
+Proof. exact zero_byte_count_never_terminates. Qed.
+Print Assumptions C19_sdp_zero_byte_count_never_terminates.
+
+(* The three client transactions (continuation limit 64, as in the code) against the server. *)
+Theorem C19_sdp_get_attributes_exact : forall recs mtu cur h ids svc,
+  lookup_record h recs = Some svc -> 10 <= mtu ->
+  zlen (attr_list_bytes (get_service_attributes svc ids)) <= 64 * capacity mtu ->
+  client_get_attributes recs mtu cur h ids =
+  (RNone, CDoneBytes (attr_list_bytes (get_service_attributes svc ids))).
+Proof. exact get_attributes_exact. Qed.
+Print Assumptions C19_sdp_get_attributes_exact.
+
+Theorem C19_sdp_get_attributes_unknown_handle : forall recs mtu cur h ids,
+  lookup_record h recs = None ->
+  client_get_attributes recs mtu cur h ids = (RNone, CErr ERR_INVALID_HANDLE).
+Proof. exact get_attributes_unknown_handle. Qed.
+Print Assumptions C19_sdp_get_attributes_unknown_handle.
+
+Theorem C19_sdp_search_attributes_exact : forall recs mtu cur pat ids,
+  10 <= mtu -> zlen (search_attr_bytes recs pat ids) <= 64 * capacity mtu ->
+  client_search_attributes recs mtu cur pat ids = (RNone, CDoneBytes (search_attr_bytes recs pat ids)).
+Proof. exact search_attributes_exact. Qed.
+Print Assumptions C19_sdp_search_attributes_exact.
+
+Theorem C19_sdp_search_services_exact : forall recs mtu cur pat,
+  15 <= mtu ->
+  zlen (match_services recs pat) <= 65535 ->
+  zlen (match_services recs pat) <= 64 * ((mtu - 11) / 4) ->
+  client_search_services recs mtu cur pat =
+  (RHandles (zlen (match_services recs pat)) [], CDoneHandles (map fst (match_services recs pat))).
+Proof. exact search_services_exact. Qed.
+Print Assumptions C19_sdp_search_services_exact.
+
+(* Any number of clients connected at the same time, any interleaving of their connects,
+   disconnects and requests: what client d receives, and the continuation state held for it,
+   are those of a server that only ever saw d's own operations. *)
+Theorem C19_sdp_clients_independent : forall recs ops s d,
+  to_chan d (snd (s_run recs s ops)) = snd (solo_run recs (view s d) (for_chan d ops)) /\
+  view (fst (s_run recs s ops)) d = fst (solo_run recs (view s d) (for_chan d ops)).
+Proof. exact clients_independent. Qed.
+Print Assumptions C19_sdp_clients_independent.
+
+Theorem C19_sdp_response_to_requester : forall recs s c mtu q,
+  exists r, snd (s_step recs s (Request c mtu q)) = [(c, r)].
+Proof. exact response_to_requester. Qed.
+Print Assumptions C19_sdp_response_to_requester.
+
+(* ============================================================ AVDTP signalling messages *)
+
+(* For every MTU >= 4, every header, every payload within the packet-count guard, and from
+   EVERY assembler state: what send_message emits fits the MTU and is delivered as exactly that
+   message. *)
+Theorem C19_avdtp_fragment_reassemble : forall mtu label sg mt payload s,
+  4 <= mtu -> hdr_ok label sg mt = true -> size_ok mtu payload = true ->
+  exists ps, a_frag mtu label sg mt payload = FPackets ps /\
+             a_run s ps = (a_reset, [AMsg label sg mt payload]) /\
+             Forall (fun p => zlen p <= mtu) ps.
+Proof. exact frag_asm. Qed.
+Print Assumptions C19_avdtp_fragment_reassemble.
+
+(* Beyond the guard (more than 255 packets) send_message raises before sending anything. *)
+Theorem C19_avdtp_over_guard_refused : forall mtu label sg mt payload,
+  4 <= mtu -> size_ok mtu payload = false -> a_frag mtu label sg mt payload = FRaise.
+Proof. exact frag_over_guard. Qed.
+Print Assumptions C19_avdtp_over_guard_refused.
+
+(* A broken fragment sequence discards only that message: after ANY PDUs at all, the next
+   message is delivered intact, after whatever the junk itself produced. *)
+Theorem C19_avdtp_resync : forall junk mtu label sg mt payload s,
+  4 <= mtu -> hdr_ok label sg mt = true -> size_ok mtu payload = true ->
+  exists ps, a_frag mtu label sg mt payload = FPackets ps /\
+             a_run s (junk ++ ps) = (a_reset, snd (a_run s junk) ++ [AMsg label sg mt payload]).
+Proof. exact resync. Qed.
+Print Assumptions C19_avdtp_resync.
+
+(* The assembler does not depend on the sender's fragment size: any cut of the payload. *)
+Theorem C19_avdtp_any_cut : forall label sg mt c0 cs s,
+  hdr_ok label sg mt = true -> cs <> [] ->
+  a_run s ((a_hdr label PT_START mt :: sg :: (1 + zlen cs) :: c0) :: a_tail_packets label mt cs) =
+  (a_reset, [AMsg label sg mt (c0 ++ concat cs)]).
+Proof. exact any_cut_asm. Qed.
+Print Assumptions C19_avdtp_any_cut.
+
+(* ============================================================ AVCTP messages *)
+
+(* Layout the implementation accepts (PID in every packet): any cut, any header a peer may
+   send, from any assembler state, after any junk. *)
+Theorem C19_avctp_pid_layout_reassembles : forall junk label cr ipid pid c0 cs s,
+  chdr_ok label cr ipid = true ->
+  c_run s (junk ++ c_frag_pid label cr ipid pid c0 cs) =
+  (c_reset, snd (c_run s junk) ++ [CMsg label (cr =? 0) (negb (ipid =? 0)) pid (c0 ++ concat cs)]).
+Proof. exact c_resync. Qed.
+Print Assumptions C19_avctp_pid_layout_reassembles.
+
+(* Layout of the AVCTP specification (PID in the start packet only): proved for messages that
+   are not fragmented -- the hypothesis that excludes finding D19d ... *)
+Theorem C19_avctp_spec_layout_unfragmented : forall label cr ipid pid c0 s,
+  chdr_ok label cr ipid = true ->
+  c_run s (c_frag_spec label cr ipid pid c0 []) =
+  (c_reset, [CMsg label (cr =? 0) (negb (ipid =? 0)) pid c0]).
+Proof. exact spec_layout_single. Qed.
+Print Assumptions C19_avctp_spec_layout_unfragmented.
+
+(* ... and that hypothesis is needed: the statement for fragmented messages is false of the
+   code as it is (known finding D19d). *)
+Theorem C19_avctp_spec_layout_fragmented_refuted :
+  ~ (forall label cr ipid pid c0 cs s, chdr_ok label cr ipid = true ->
+       c_run s (c_frag_spec label cr ipid pid c0 cs) =
+       (c_reset, [CMsg label (cr =? 0) (negb (ipid =? 0)) pid (c0 ++ concat cs)])).
+Proof. exact spec_layout_fragmented_refuted. Qed.
+Print Assumptions C19_avctp_spec_layout_fragmented_refuted.
+
+(* ============================================================ AVDTP stream states *)
+
+(* After ANY sequence of configure / open / start / suspend / close / abort from the initiating
+   side, both ends hold the same stream state and the same view of the transport channel. *)
+Theorem C19_stream_states_agree : forall ops,
+  let p := fst (run p_init ops) in src_st p = snk_st p /\ src_rtp p = snk_rtp p.
+Proof. exact states_agree. Qed.
+Print Assumptions C19_stream_states_agree.
+
+Theorem C19_stream_states_follow_spec : forall ops,
+  src_st (fst (run p_init ops)) = fold_left (fun st o => spec_next o st) ops Idle.
+Proof. exact states_follow_spec. Qed.
+Print Assumptions C19_stream_states_follow_spec.
+
+(* A procedure that is not legal in the current state is refused and changes nothing on either
+   end; a legal one is accepted. *)
+Theorem C19_stream_illegal_refused_unchanged : forall ops o,
+  let p := fst (run p_init ops) in
+  legal o (src_st p) = false -> step p o = (p, Refused).
+Proof. exact illegal_refused_unchanged. Qed.
+Print Assumptions C19_stream_illegal_refused_unchanged.
+
+Theorem C19_stream_legal_accepted : forall ops o,
+  let p := fst (run p_init ops) in
+  legal o (src_st p) = true -> snd (step p o) = Ok.
+Proof. exact legal_accepted. Qed.
+Print Assumptions C19_stream_legal_accepted.
+
+(* the finite evaluation covers every state of the pair *)
+Theorem C19_stream_enumeration_complete : forall p, In p all_pairs.
+Proof. exact all_pairs_complete. Qed.
+Print Assumptions C19_stream_enumeration_complete.
+
+(* ============================================================ non-vacuity *)
+Example C19_hypotheses_satisfiable :
+  hdr_ok 3 1 0 = true /\ size_ok 48 (repeat 7 46) = true /\ size_ok 4 (repeat 7 256) = false /\
+  chdr_ok 1 0 0 = true /\ chdr_ok 1 0 1 = false.
+Proof. vm_compute. repeat split. Qed.
+
+(* 46 bytes at MTU 48: one SINGLE packet of 48 bytes (the boundary of D19e) *)
+Example C19_avdtp_boundary :
+  match a_frag 48 3 1 0 (repeat 7 46) with
+  | FPackets ps => map (fun p => zlen p) ps = [48] /\ snd (a_run a_reset ps) = [AMsg 3 1 0 (repeat 7 46)]
+  | _ => False
+  end.
+Proof. vm_compute. split; reflexivity. Qed.
+
+(* D19c: an unterminated START, then a well-formed START / END pair *)
+Example C19_avdtp_after_unterminated :
+  snd (a_run a_reset [[20; 1; 3; 9; 9]; [36; 1; 2; 7; 7]; [44; 8; 8]]) = [AMsg 2 1 0 [7; 7; 8; 8]].
+Proof. vm_compute. reflexivity. Qed.
+
+(* D19a: a record holding only UUID 1 does not match the pattern {1, 2}; one holding both does *)
+Example C19_sdp_match_all :
+  map fst (match_services [(10, [mkAttr 1 [] (DSeq [DUuid 1])]);
+                           (11, [mkAttr 1 [] (DSeq [DUuid 1; DSeq [DUuid 2]])])] [1; 2]) = [11].
+Proof. vm_compute. reflexivity. Qed.
+
+(* D19b: two clients, interleaved continuation: each gets its own pieces *)
+Example C19_sdp_two_clients :
+  let recs := [(10, [mkAttr 1 [1; 2; 3; 4; 5; 6] DOther]); (11, [mkAttr 1 [9; 8; 7; 6; 5; 4] DOther])] in
+  let ops := [Connect 1; Connect 2;
+              Request 1 15 (QAttr 10 65535 [(true, 65535)] CFresh);
+              Request 2 15 (QAttr 11 65535 [(true, 65535)] CFresh);
+              Request 1 15 (QAttr 10 65535 [(true, 65535)] CValid);
+              Request 2 15 (QAttr 11 65535 [(true, 65535)] CValid)] in
+  snd (s_run recs s_init ops) =
+  [(1, EAttr [53; 9; 9; 0; 1; 1] true); (2, EAttr [53; 9; 9; 0; 1; 9] true);
+   (1, EAttr [2; 3; 4; 5; 6] false); (2, EAttr [8; 7; 6; 5; 4] false)].
+Proof. vm_compute. reflexivity. Qed.
+
+(* D19f: configure, open, abort leaves both ends IDLE *)
+Example C19_stream_abort :
+  pair_obs (fst (run p_init [OpConfigure; OpOpen; OpAbort])) = (0, false, true, 0, false, false)%nat.
+Proof. vm_compute. reflexivity. Qed.
